@@ -176,6 +176,18 @@ CLAIMED.update({
         note=ROUND_NOTE,
         technique="bounded Kani harnesses with an online monitor (bounded stand-in)",
         design_ref="5 C02"),
+    "C08": dict(
+        category="other",
+        text=("Narrow claim, bounded Kani harnesses on the real sample_recorder (all three code paths, two threads whose samples are taken one after "
+              "the other) with Barrier::wait, the clock reads, the fences and ThreadAllocInfo::clear replaced by loggers: a thread reaches its start "
+              "timestamp only after its allocation tally was cleared and after it has met the others (a barrier wait) following its last input "
+              "generation, input counting and tally clear; a thread starts dropping outputs or inputs only after it has met the others following its "
+              "end timestamp."),
+        note=("The cross-thread statement follows from these per-thread orders only together with the ASSUMED semantics of std::sync::Barrier and "
+              "with the barrier being created for exactly the round's threads (pinned text in the loop unit). No interleaving is explored (Kani has "
+              "no threads). The panic clause and 'only that thread's own allocations' (thread_local!) are undecided."),
+        technique="bounded Kani harnesses with an online monitor on the real sample_recorder; std Barrier semantics assumed",
+        design_ref="5 C08"),
     "C14": dict(
         category="proof",
         text=("Verus proves on the extracted Divan::run_tree_list, for EVERY tree (no bound), one level of the walk: a benchmark gets one line "
@@ -224,9 +236,8 @@ CLAIMED.update({
 })
 
 NOT_APPLICABLE = {
-    "C06": "concurrency (happens-before, all interleavings): Kani has no thread support and ICEs on the catch_unwind this code uses; Verus would need the pool rewritten onto its permission/atomic types, i.e. a model, which is a different family",
+    "C06": "concurrency (happens-before, all interleavings; unlike C08 nothing of it reduces to one thread's event order plus an assumed library contract): Kani has no thread support and ICEs on the catch_unwind this code uses; Verus would need the pool rewritten onto its permission/atomic types, i.e. a model, which is a different family",
     "C07": "liveness / lost wake-ups under all interleavings: not expressible as a function contract with the installed verifiers",
-    "C08": "barrier ordering across threads and panic propagation: concurrency, same reasons as C06",
     "C12": "proc-macro token generation and link-section constructors: neither verifier sees macro expansion of arbitrary programs or pre-main constructors",
     "C20": "stdout content of println!-based painter over arbitrary trees; no contract within reach decides the printed text",
 }
